@@ -68,6 +68,7 @@ class Termizer:
         self.keep_narrowing = False
         self.closures = {}     # local id -> Closure node (for calls of local closures)
         self._cdepth = 0
+        self.const_subst = {}  # name of a const generic parameter / constant -> term (to analyse one instantiation)
 
     def fresh(self, n):
         return ("unk", "%s@%s" % (n.get("k"), n.get("s", next(_unk_counter))))
@@ -89,6 +90,8 @@ class Termizer:
                 if lid in self.env:
                     return self.env[lid]
                 return ("var", n["name"], lid)
+            if self.const_subst and (n.get("name") in self.const_subst or n.get("seg") in self.const_subst):
+                return self.const_subst.get(n.get("name"), self.const_subst.get(n.get("seg")))
             if n.get("res") == "def":
                 return ("def", strip_generics(F.defpath(n) or n.get("name", "?")))
             return ("def", n.get("seg", "?"))
@@ -156,6 +159,12 @@ class Termizer:
         if k == "Block":
             if "expr" in n and all(_debug_stmt(F, st) for st in n["stmts"]):
                 return self.term(n["expr"])
+            # leading immutable `let`s and a tail expression: the value with the lets substituted ("hoist a
+            # sub-expression into a let" leaves every term unchanged)
+            if "expr" in n:
+                t = self._closure_body_term(n)
+                if t is not None:
+                    return t
             return self.fresh(n)
         if k == "Match" and n.get("src") == "Normal":
             st = self.term(n["e"])
@@ -177,10 +186,13 @@ class Termizer:
                         break
             return self.fresh(n)
         if k == "If" and "el" in n and n["c"].get("k") != "Let":
+            ct = self.term(n["c"])
+            if ct[0] == "bool":
+                return self.term(n["th"] if ct[1] else n["el"])
             a = self.term(n["th"])
             b = self.term(n["el"])
             if a[0] != "unk" and b[0] != "unk":
-                return ("ite", self.term(n["c"]), a, b)
+                return ("ite", ct, a, b)
             return self.fresh(n)
         if k == "Tup":
             return ("tup",) + tuple(self.term(a) for a in n["es"])
@@ -198,7 +210,7 @@ class Termizer:
         bound = []
         try:
             for st in body["stmts"]:
-                if st.get("k") == "LetStmt" and st["pat"].get("k") == "PBind" and "init" in st and "els" not in st:
+                if st.get("k") == "LetStmt" and st["pat"].get("k") == "PBind" and not st["pat"].get("mut") and "init" in st and "els" not in st:
                     bound.append((st["pat"]["id"], self.env.get(st["pat"]["id"])))
                     self.env[st["pat"]["id"]] = self.term(st["init"])
                 elif _debug_stmt(self.F, st):
@@ -741,6 +753,21 @@ def cond_atoms(T, n, positive=True):
     if k == "Let":
         return []
     t = T.term(n)
+    return term_cond_atoms(t, positive)
+
+
+def term_cond_atoms(t, positive=True):
+    """the same for a boolean *term* (a condition that was first bound to a local: `let found = a < b; if found ..`)"""
+    if t[0] == "op" and len(t) == 4 and t[1] in ("<", "<=", ">", ">=", "==", "!=") and not any(x[0] in ("float", "lit") for x in (t[2], t[3])):
+        return cmp_atoms(t[1], t[2], t[3], positive)
+    if t[0] == "un" and t[1] == "!":
+        return term_cond_atoms(t[2], not positive)
+    if t[0] == "op" and len(t) == 4 and t[1] == "&&":
+        return (term_cond_atoms(t[2], True) + term_cond_atoms(t[3], True)) if positive else _mk_or(term_cond_atoms(t[2], False), term_cond_atoms(t[3], False))
+    if t[0] == "op" and len(t) == 4 and t[1] == "||":
+        return (term_cond_atoms(t[2], False) + term_cond_atoms(t[3], False)) if not positive else _mk_or(term_cond_atoms(t[2], True), term_cond_atoms(t[3], True))
+    if t[0] == "bool":
+        return []
     return [("b", t, positive)]
 
 
@@ -1002,6 +1029,12 @@ class Walker:
                 self.bind_pat(q, _ite_project(term, i), K)
         elif k == "PRef":
             self.bind_pat(p["p"], term, K)
+        elif k == "PSlice" and term is not None and not p.get("post") and "mid" not in p and all(q.get("k") in ("PBind", "PWild") for q in p.get("ps", [])):
+            # `let [a, b, c] = e`: the elements of the array value
+            for i, q in enumerate(p["ps"]):
+                if q.get("k") == "PBind":
+                    el = term[1 + i] if term[0] == "arr" and len(term) - 1 == len(p["ps"]) else ("index", term, ("int", i))
+                    self.bind_pat(q, el, K)
         elif k == "PTuple" and term is not None and term[0] == "call" and all(q.get("k") in ("PBind", "PWild") for q in p["ps"]):
             # `let (a, b) = f(..)`: the bindings are the projections of the call's value
             for i, q in enumerate(p["ps"]):
@@ -1227,6 +1260,12 @@ class Walker:
                 return True
             if self.on_if is not None:
                 self.on_if(self, n, K)
+            if self.T.const_subst:
+                ct = self.T.term(c)
+                if ct[0] == "bool":
+                    # the condition is decided in the instantiation under analysis: only that branch exists
+                    br = n["th"] if ct[1] else n.get("el")
+                    return self.walk(br, K) if br is not None else False
             rt = self._branch(n["th"], K, lambda Kb: Kb.add(cond_atoms(self.T, c, True)))
             re_ = self._branch(n.get("el"), K, lambda Kb: Kb.add(cond_atoms(self.T, c, False)))
         atoms = self._join_envs(None, [rt, re_])
@@ -1447,12 +1486,21 @@ class Walker:
                     K.add(cmp_atoms("<", v, ("call", "len", (T.term(base),))))
 
 
+def _never(t):
+    """a leaf that never yields a value (unreachable / panic): it fits any tuple shape"""
+    return t[0] == "call" and isinstance(t[1], str) and t[1].split("::")[-1] in ("unreachable_unchecked", "unreachable", "panic", "panic_fmt", "abort")
+
+
 def _ite_tuple_arity(t):
     if t[0] == "tup":
         return len(t) - 1
     if t[0] == "ite":
         a = _ite_tuple_arity(t[2])
         b = _ite_tuple_arity(t[3])
+        if _never(t[2]):
+            return b
+        if _never(t[3]):
+            return a
         return a if a == b else None
     return None
 
@@ -1460,6 +1508,8 @@ def _ite_tuple_arity(t):
 def _ite_project(t, i):
     if t[0] == "tup":
         return t[1 + i]
+    if _never(t):
+        return t
     return ("ite", t[1], _ite_project(t[2], i), _ite_project(t[3], i))
 
 
@@ -1522,6 +1572,8 @@ def canon_masks(t):
     if not isinstance(t, tuple) or not t or not isinstance(t[0], str):
         return t
     t = tuple(canon_masks(x) if isinstance(x, tuple) else x for x in t)
+    if t[0] == "un" and t[1] == "!" and len(t) == 3 and isinstance(t[2], tuple) and t[2][0] == "un" and t[2][1] == "!":
+        return t[2][2]      # !!x
     if t[0] == "op" and len(t) == 4:
         op, a, b = t[1], t[2], t[3]
         if op == ">>" and _is_allones(a) and b[0] == "op" and b[1] == "-" and _is_wordbits(b[2]):
@@ -1601,3 +1653,29 @@ def unify_locals(ref_items, items, fixed):
     return {b: a for b, a in ren.items() if a != b}
 
 
+
+
+def specialise(t, var, val):
+    """t with the term `var` replaced by `val` and the conditionals / projections this decides folded away"""
+    if not isinstance(t, tuple) or not t:
+        return t
+    if t == var:
+        return val
+    t = tuple(specialise(x, var, val) if isinstance(x, tuple) else x for x in t)
+    if t[0] == "op" and len(t) == 4 and t[2][0] == "int" and t[3][0] == "int":
+        a, b = t[2][1], t[3][1]
+        if t[1] in ("==", "!=", "<", "<=", ">", ">="):
+            return ("bool", {"==": a == b, "!=": a != b, "<": a < b, "<=": a <= b, ">": a > b, ">=": a >= b}[t[1]])
+    if t[0] == "ite" and t[1][0] == "bool":
+        return t[2] if t[1][1] else t[3]
+    if t[0] == "index" and t[1][0] == "arr" and t[2][0] == "int" and 0 <= t[2][1] < len(t[1]) - 1:
+        return t[1][1 + t[2][1]]
+    if t[0] == "field" and t[1][0] == "tup" and str(t[2]).isdigit() and int(t[2]) < len(t[1]) - 1:
+        return t[1][1 + int(t[2])]
+    return t
+
+
+def xor_operands(t):
+    if t[0] == "op" and t[1] == "^":
+        return xor_operands(t[2]) + xor_operands(t[3])
+    return [t]
